@@ -252,6 +252,24 @@ func init() {
 		if compileCalls == 0 {
 			return out, "", fmt.Errorf("global_conf.go: no regexp.Compile / regexp.MustCompile call at all: shape not recognised")
 		}
+		// does IntialGlobalVar (run once at start-up, before any settings are seen) allocate g.IgnoreVarMap?
+		varMapAtInit := false
+		ig := c17FindFunc(fg, "IntialGlobalVar")
+		if ig == nil {
+			return out, "", fmt.Errorf("global_conf.go: func IntialGlobalVar not found")
+		}
+		ast.Inspect(ig, func(n ast.Node) bool {
+			as, ok := n.(*ast.AssignStmt)
+			if !ok || len(as.Lhs) != 1 || len(as.Rhs) != 1 {
+				return true
+			}
+			if se, ok := as.Lhs[0].(*ast.SelectorExpr); ok && se.Sel.Name == "IgnoreVarMap" {
+				if _, ok := as.Rhs[0].(*ast.CompositeLit); ok {
+					varMapAtInit = true
+				}
+			}
+			return true
+		})
 		// documentation of the switches
 		nls, err := ioutil.ReadFile(filepath.Join(repo, "luahelper-vscode/package.nls.json"))
 		if err != nil {
@@ -304,6 +322,7 @@ func init() {
 		fmt.Fprintf(&b, "Definition special_types : list string :=\n  %s.\n\n", c17CoqStrings(special))
 		fmt.Fprintf(&b, "Definition flag_loops : list (string * string) :=\n  %s.\n\n", pairs(loops))
 		fmt.Fprintf(&b, "(* %d call(s) of regexp.MustCompile on non-literal text in global_conf.go *)\nDefinition must_compile_user_text : bool := %v.\n\n", mustUser, mustUser > 0)
+		fmt.Fprintf(&b, "(* IntialGlobalVar allocates IgnoreVarMap (before any settings are read) *)\nDefinition var_map_allocated_at_init : bool := %v.\n\n", varMapAtInit)
 		dq := make([]string, len(docs))
 		for i, d := range docs {
 			dq[i] = fmt.Sprintf("(\"%s\", %s%%N)", d.name, d.ty)
